@@ -30,3 +30,26 @@ PROPS["C01"]["trusted_base"] = PROPS["C01"]["trusted_base"] + [
     "ComputeMinimumCopyLength, UpdateZopfliNode, UpdateNodes, BrotliZopfliComputeShortestPath, ZopfliIterate, BrotliCreateZopfliBackwardReferences, BrotliCreateHqZopfliBackwardReferences, "
     "FindAllMatchesH10) and hash_to_binary_tree.rs (StoreAndFindMatchesH10, Store, StoreRange, BackwardMatch, ZopfliNode accessors)",
 ]
+
+# --- w-zopfli2 (session 4): theorems over the Zopfli model -------------------------------------------------------------
+if "BV.Props.C01Zopfli" not in PROPS["C01"]["lean_modules"]:
+    PROPS["C01"]["lean_modules"] = PROPS["C01"]["lean_modules"] + ["BV.Props.C01Zopfli"]
+PROPS["C01"]["level_text"] += " " + (
+    "ZOPFLI THEOREMS (BV/Props/C01Zopfli.lean, lemmas BV/Lemmas/ZopfliCmd.lean + ZopfliPath.lean): `zopfli_commands_lockstep` — for EVERY node array (any cost type, any costs) "
+    "whose path from nodes[0].next is sound (`NodesOK`: every node reached along the `next` offsets describes, where its copy starts, either a copy with 1 <= distance <= min(position, window), "
+    "length >= 2, length code = length, whose source bytes equal the target bytes in hist ++ mb, or a static-dictionary reference — distance beyond the window, no short code, word length 4..24 within the "
+    "7-bit delta of the copy length, the decoder's word oracle expanding (word length, index, transform) to the next copy_length bytes; a non-zero short code denotes the node's distance under the RFC 7932 "
+    "rules (C14's rfcDistance) relative to the ring of last distances, which evolves by the decoder's rule; the walk ends inside the block), every i32 distance cache and every pending last_insert_len: the "
+    "commands of the modelled BrotliZopfliCreateCommands, closed with the insert-only command as encode.rs does, satisfy cmdOK + lockstep and the RFC decoder replays them to hist ++ mb — the SAME "
+    "conclusion as C01Chain.commands_lockstep, so the meta-block writer theorems apply to quality 10 / 11 (`zopfli_fast_roundtrip` instantiates one). Covers what the quality 2-9 lemmas did not: distance "
+    "codes chosen by Zopfli's own short-code table instead of ComputeDistanceCode, and dictionary words under transforms that ADD bytes (copy_len_code < copy_len, negative delta in Command::init's packing: "
+    "`pack_fields`, `cmdOK_commandInit'`, `decStep_dict`). `shortest_path_nodesOK` (lemmas BV/Lemmas/ZopfliBack.lean): the modelled ComputeShortestPathFromNodes (tail skip + backward walk writing the `next` chain) turns "
+    "every node array in which each WRITTEN node (a node failing the tail-skip test insert_length == 0 && length == 1) is sound relative to the ring of last distances of its OWN backward chain (`AllBack` / `BackOK` / `RingAt`) "
+    "into an array that satisfies NodesOK; `path_commands_lockstep` composes the two (sound nodes -> ComputeShortestPathFromNodes -> BrotliZopfliCreateCommands -> cmdOK + lockstep + replay = hist ++ mb)."
+)
+PROPS["C01"]["level_note"] += " " + (
+    "Zopfli theorems: `AllBack` (every written node sound relative to its own backward chain) is a HYPOTHESIS of path_commands_lockstep — that the dynamic programme (UpdateNodes / EvaluateNode inside "
+    "BrotliZopfliComputeShortestPath / ZopfliIterate) establishes it for sound matches is not proved yet (BV/Lemmas/ZopfliInv.lean holds the invariant DPInv, the meaning of `shortcut` values SC and the lemma "
+    "that writing one sound node keeps the invariant); per run it is covered only indirectly (the `cc` lines check cmdOK + lockstep + replay of the model's commands on every real node array). "
+    "NPOSTFIX = NDIRECT = 0, one call = one meta-block, as in C01Chain."
+)
